@@ -24,6 +24,7 @@ package vm
 
 // actInv: what every loop of an evaluator keeps: the activation's incoming fields are untouched, polls only grow,
 // and no cancellation poll has fired so far (a fired poll always ends the activation's work at once)
+//@ global_inv validconsts: rvValid(nilValue) && rvKind(nilValue) == reflect.Interface && rvIsNil(nilValue) && rvValid(errorNilValue) && rvValid(reflectValueNilValue) && rvValid(reflectValueErrorNilValue) && !rvValid(zeroValue)
 //@ spec fun actInv(r *runInfoStruct) bool = riOK(r) && r.env == old(r.env) && r.ctx == old(r.ctx) && r.options == old(r.options) && polls >= old(polls) && !fired
 // actInvE: same, while the activation runs in a temporary child scope (r.env is restored before returning)
 //@ spec fun actInvE(r *runInfoStruct) bool = riOK(r) && r.ctx == old(r.ctx) && r.options == old(r.options) && polls >= old(polls) && !fired
@@ -54,6 +55,8 @@ package vm
 //   contents change.
 //@ func template.evalExpr
 //@ requires ok: riOK(runInfo)
+//@ requires [C01] okvin: rvValid(runInfo.rv)
+//@ ensures [C01] okv: rvValid(runInfo.rv)
 //@ requires [C13] nolocks: nolocks()
 //@ requires [C08] clean: runInfo.err == nil
 //@ requires [C02] nofire: !fired
@@ -64,11 +67,13 @@ package vm
 //@ ensures [C02] firederr: fired ==> realErr(runInfo.err)
 //@ ensures [C02] pollsmono: polls >= old(polls)
 //@ ensures [C08] nosentinel: runInfo.err != ErrBreak && runInfo.err != ErrContinue && runInfo.err != ErrReturn
-//@ loops invariant actInv(runInfo) && runInfo.err == nil
+//@ loops invariant actInv(runInfo) && runInfo.err == nil && rvValid(runInfo.rv)
 
 // evalStmt: statements additionally may register deferred calls and change runInfo.stmt; they may leave a sentinel.
 //@ func template.evalStmt
 //@ requires ok: riOK(runInfo)
+//@ requires [C01] okvin: rvValid(runInfo.rv)
+//@ ensures [C01] okv: rvValid(runInfo.rv)
 //@ requires [C13] nolocks: nolocks()
 //@ requires [C08] clean: runInfo.err == nil
 //@ requires [C02] nofire: !fired
@@ -119,6 +124,8 @@ package vm
 //@ func (*runInfoStruct).runSingleStmt
 //@ props C04 C08 C02
 //@ requires ok: riOK(runInfo)
+//@ requires [C01] okvin: rvValid(runInfo.rv)
+//@ ensures [C01] okv: rvValid(runInfo.rv)
 //@ requires [C13] nolocks: nolocks()
 //@ requires [C08] clean: runInfo.err == nil
 //@ modifies runInfo.rv, runInfo.err, runInfo.expr, runInfo.operator, runInfo.stmt, runInfo.defers, polls, fired
